@@ -23,6 +23,9 @@ import (
 // check script maps it to 2; a raw 2 is what the Go runtime uses for a crash).
 const ExitInconclusive = 4
 
+// StateNamer (set by the monitor package) renders automaton states for the evidence.
+var StateNamer func(parser string, st uint32) string
+
 // VerifDir is the root of the verification tree (evidence, replay, known findings).
 var VerifDir = "/verif"
 
@@ -570,7 +573,18 @@ func (r *Run) writeEvidence(unlisted int) {
 			ids = append(ids, int(s))
 		}
 		sort.Ints(ids)
-		stateCov[p] = map[string]any{"distinct": len(ids), "states": ids}
+		ent := map[string]any{"distinct": len(ids)}
+		if StateNamer != nil {
+			names := make([]string, 0, len(ids))
+			for _, id := range ids {
+				names = append(names, fmt.Sprintf("%s x%d", StateNamer(p, uint32(id)), m[uint32(id)]))
+			}
+			sort.Strings(names)
+			ent["suspended_in (state x times)"] = names
+		} else {
+			ent["states"] = ids
+		}
+		stateCov[p] = ent
 	}
 	allEx := len(r.stages) > 0
 	for _, st := range r.stages {
